@@ -332,8 +332,7 @@ theorem addManyGlobal_ok {N : Int} {np : Nat} {V : Int → Vertex} {r : Nat} {st
       RankInv N np V r st' ∧ st'.group k = st.group k ++ cells.map (norm ci) ∧
       (∀ j, j ≠ k → st'.group j = st.group j) ∧ st'.geoms = st.geoms ∧ st'.cad = st.cad ∧
       st'.nGlobal = st.nGlobal ∧
-      (∀ n ∈ st.nodes, n.part = (r : Int) → n ∈ st'.nodes) ∧
-      (∀ n ∈ st'.nodes, n.part = (r : Int) → n ∈ st.nodes) := by
+      st'.nodes.filter (fun n => n.part == (r : Int)) = st.nodes.filter (fun n => n.part == (r : Int)) := by
   have hk16 : k < st.cells.length := by
     rw [hinv.ncells]
     have := (List.getElem?_eq_some_iff.1 hci).1
@@ -414,7 +413,7 @@ theorem addManyGlobal_ok {N : Int} {np : Nat} {V : Int → Vertex} {r : Nat} {st
       obtain ⟨h0, h1⟩ := hvrange gp hgp
       rw [e] at h0 h1
       exact ⟨h0, h1, partAfter_eq verts _ _ hall _ (Or.inr ⟨gp, hgp, e⟩)⟩
-  refine ⟨_, hcall, ?_, group_set_self st k hk16 _ _, fun j hj => group_set_ne st k j hj _ _, rfl, rfl, rfl, ?_, ?_⟩
+  refine ⟨_, hcall, ?_, group_set_self st k hk16 _ _, fun j hj => group_set_ne st k j hj _ _, rfl, rfl, rfl, ?_⟩
   · -- the invariant
     have hhas' : ∀ g, (∃ n ∈ st.nodes ++ extra, n.glob = g) →
         PRank.has { st with nodes := (st.nodes ++ extra).map fun n => { n with part := partAfter verts n.glob n.part },
@@ -495,30 +494,30 @@ theorem addManyGlobal_ok {N : Int} {np : Nat} {V : Int → Vertex} {r : Nat} {st
         · rw [group_set_self st k hk16]
           exact List.mem_append_right _ (List.mem_map.2 ⟨c0, hc0, rfl⟩)
         · rw [norm_take ci c0 hlen, ← e]; exact hx
-  · -- owned entries are kept as they are
-    intro n hn hp
-    apply List.mem_map.2
-    refine ⟨n, List.mem_append_left _ hn, ?_⟩
-    obtain ⟨_, _, hpa⟩ := hpart n (List.mem_append_left _ hn)
-    have := (hinv.parts n hn).2.2
-    cases n with
-    | mk g p x =>
-      simp only at hpa this ⊢
-      rw [hpa, ← this]
-  · intro n hn hp
-    obtain ⟨m, hm, rfl⟩ := List.mem_map.1 hn
-    simp only at hp
-    obtain ⟨_, _, hpa⟩ := hpart m hm
-    rcases List.mem_append.1 hm with hm | hm
-    · have := (hinv.parts m hm).2.2
-      have e : ({ m with part := partAfter verts m.glob m.part } : PNode) = m := by
-        cases m with
-        | mk g p x => simp only at hpa this ⊢; rw [hpa, ← this]
-      rw [e]; exact hm
-    · obtain ⟨_, _, hg, _⟩ := hx1 m hm
+  · -- owned entries are kept as they are, in their order; no new entry is owned
+    show ((st.nodes ++ extra).map fun n => ({ n with part := partAfter verts n.glob n.part } : PNode)).filter
+      (fun n => n.part == (r : Int)) = _
+    rw [List.map_append, List.filter_append]
+    have hA : st.nodes.map (fun n => ({ n with part := partAfter verts n.glob n.part } : PNode)) = st.nodes := by
+      conv_rhs => rw [← List.map_id st.nodes]
+      apply List.map_congr_left
+      intro n hn
+      obtain ⟨_, _, hpa⟩ := hpart n (List.mem_append_left _ hn)
+      have := (hinv.parts n hn).2.2
+      cases n with
+      | mk g p x => simp only at hpa this ⊢; rw [hpa, ← this]; rfl
+    have hB : (extra.map fun n => ({ n with part := partAfter verts n.glob n.part } : PNode)).filter
+        (fun n => n.part == (r : Int)) = [] := by
+      rw [List.filter_eq_nil_iff]
+      intro n hn
+      obtain ⟨m, hm, rfl⟩ := List.mem_map.1 hn
+      obtain ⟨_, _, hpa⟩ := hpart m (List.mem_append_right _ hm)
+      obtain ⟨_, _, hg, _⟩ := hx1 m hm
       obtain ⟨gp, hgp, e, hne⟩ := (hnewmem m.glob).1 hg
       obtain ⟨_, _, _, h2⟩ := hvmem gp hgp
-      rw [hpa, ← e, ← h2] at hp
-      exact absurd hp hne
+      simp only [beq_iff_eq]
+      rw [hpa, ← e, ← h2]
+      exact hne
+    rw [hA, hB, List.append_nil]
 
 end Refine.Lemmas.PartMeshb
